@@ -284,6 +284,12 @@ def _gen_plan(family, rng, pool, tier):
         else:
             pred = small
         items = [_item(e) for e in _pick(rng, pool, n, pred)]
+        if rng.random() < 0.2:
+            # a (synthetic) table-definition message somewhere in the stream: it is a message like any
+            # other for splitting and filtering; its definitions concern ids no other message uses
+            defs = [e for e in pool if 'D' in e['cls'] and e['src'] == 'synth']
+            if defs:
+                items.insert(rng.randint(0, len(items)), _item(rng.choice(defs)))
         seps = [gen_separator(rng)[1].hex() for _ in range(len(items) + 1)]
         front = rng.choice(['api', 'api', 'api', 'cli-decode', 'cli-info-m', 'cli-info-c', 'cli-split'])
         mode = 'info' if front in ('cli-info-m', 'cli-info-c', 'cli-split') else \
@@ -376,7 +382,7 @@ def _gen_plan(family, rng, pool, tier):
         items = []
         for e in _pick(rng, pool, rng.randint(2, 5), small):
             raw = bytes.fromhex(e['hex'])
-            how = rng.choice(['info', 'info', 'full'])
+            how = rng.choice(['info', 'info', 'full', 'full_ive'])
             fault = gen_data_damage(rng, raw) if (how == 'info' and rng.random() < 0.5) else None
             it = _item(e, fault)
             it['how'] = how
@@ -387,9 +393,10 @@ def _gen_plan(family, rng, pool, tier):
     if family == 'c17-stream':
         n = rng.choice([1, 2, 2, 3, 4, 5, 6])
         items = []
-        for e in _pick(rng, pool, n, small):
+        emb = rng.random() < 0.35       # bias to messages whose body holds a start signature
+        for e in _pick(rng, pool, n, (lambda x: small(x) and ('B' in x['cls'] or rng.random() < 0.3)) if emb else small):
             raw = bytes.fromhex(e['hex'])
-            fault = gen_data_damage(rng, raw) if rng.random() < 0.6 else None
+            fault = gen_data_damage(rng, raw) if (rng.random() < 0.6 and raw.find(b'BUFR', 1) < 0) else None
             items.append(_item(e, fault))
         seps = [gen_separator(rng)[1].hex() for _ in range(len(items) + 1)]
         front = rng.choice(['api', 'api', 'cli-info-m', 'cli-info-c', 'cli-split'])
@@ -651,7 +658,8 @@ def exec_c17_multi(plan):
         dmg = bufrgen.apply_fault(raw, it['fault']) if it.get('fault') else raw
         r = {'exc': None, 'q': [], 'sections': None}
         try:
-            m = dec.process(dmg, info_only=(it['how'] == 'info'))
+            m = dec.process(dmg, info_only=(it['how'] == 'info'),
+                            ignore_value_expectation=(it['how'] == 'full_ive'))
             r['sections'] = [[s.get_metadata('index'), [[p.name, canon(p.value) if p.type != 'template_data' else '<td>']
                                                         for p in s]] for s in m.sections]
             for ex in it['exprs']:
